@@ -163,7 +163,8 @@ def signature(pid, m):
         a = m.get("actrec", {})
         diff = _differing(m["spec"], m["engine"])
         on = "sibling" if diff and diff <= {_sibling(a.get("a", ""))} else "named" if diff <= {a.get("a", "")} else "other"
-        return "%s|exact/state|%s|%s|on=%s" % (pid, m["act"], ",".join(sorted(m["what"])), on)
+        if on != "named":      # (a difference on the named account itself is classified as in every vocabulary)
+            return "%s|exact/state|%s|%s|on=%s" % (pid, m["act"], ",".join(sorted(m["what"])), on)
     if k == "state":
         a = m.get("actrec", {})
         lvl = ""
